@@ -39,7 +39,7 @@ import types
 import uuid
 from threading import Lock
 
-from harness.common import Check, DRIVER, InfraError
+from harness.common import Check, DRIVER, InfraError, ddmin
 
 UNKNOWN_TASK = 0      # message id of the literal 'Unknown task.'
 SYSTEM_ERROR = 1      # message id of a traceback produced by the run loop
@@ -720,6 +720,7 @@ class Session:
             else:
                 self.value_owner[(k[0], int(k[2]))] = None
         nse = len(sim.system_errors)
+        nfind = len(self.findings)
         logs = self.runner.apply(ev)
         cli, down, delivered = self.runner.render_log(logs)
         state = self.runner.render_state()
@@ -777,6 +778,8 @@ class Session:
                             {'history': hist}, True))
         elif not wf:
             self.oracles_on = False
+        diverged = any(not f.sig.startswith('stale-error-forwarded')
+                       for f in self.findings[nfind:])
         self.lines.append(ev)
         self.records.append({
             'ev': ev, 'cli': ' '.join(cli), 'down': ' '.join(down),
@@ -784,7 +787,9 @@ class Session:
             'oracles': self.oracles_on,
             'abs': {t: auto.state_of(t) for t in auto.task}
             if self.oracles_on else None})
-        return not raised and sim.s.running
+        # after a first divergence from the automaton the rest of the history
+        # proves nothing: do not continue it
+        return not raised and sim.s.running and not diverged
 
     # -- snapshots for tree exploration
     def snapshot(self):
@@ -923,7 +928,6 @@ def chunk_exhaustive(args):
     sess.ctl('reset')
     for ev in ('connect 0', 'connect 1'):
         sess.event(ev)
-    sess.path.clear()
     evs = alphabet(2, 2, 2)
     ok = True
     for ev in prefix:
@@ -1666,6 +1670,21 @@ FIRST = ['submit 0 0', 'request 0 0', 'status 0 0', 'cancel 0 0',
          'disconnect 0', 'result 0 7', 'error 0 2', 'log 0 4']
 
 
+def reproduces(hist, sig):
+    """Does this (well-formed) history show the finding `sig` on the real
+    server?  Used to shrink reported histories."""
+    sess = Session(strict_errors=True)
+    for ev in hist:
+        if not sess.auto.wf(ev):
+            return False
+        alive = sess.event(ev)
+        if any(f.sig == sig for f in sess.findings):
+            return True
+        if not alive:
+            return False
+    return False
+
+
 def replay_history(hist, out=sys.stdout):
     _quiet()
     sess = Session(strict_errors=True)
@@ -1719,8 +1738,10 @@ def run(ck: Check):
     else:
         jobs = [([a, b], depth, False, True) for a in FIRST for b in evs]
     ck.rng.shuffle(jobs)
-    ddepth = 10 if thorough else 7
-    djobs = [([a, b], ddepth, True, True) for a in FIRST for b in evs]
+    # deeper, up to equality of the reached state (thorough tier only)
+    ddepth = 10 if thorough else 0
+    djobs = ([([a, b], ddepth, True, True) for a in FIRST for b in evs]
+             if thorough else [])
     nrand = 100000 if thorough else 5000
     per = 250
     rjobs = [(ck.rng.randrange(1 << 30), per, 30, False, True)
@@ -1769,9 +1790,9 @@ def run(ck: Check):
         f'all well-formed histories of length <= {depth} over 2 clients x 2 '
         f'task ids x {{submit, request, status, cancel, disconnect}} x '
         f'{{result, error, log}} for 2 mailboxes, first event canonical up '
-        f'to client/task renaming ({n_tree} history-tree nodes); plus all '
-        f'histories of length <= {ddepth} up to equality of the reached '
-        f'server state ({n_dedup} nodes)')
+        f'to client/task renaming ({n_tree} history-tree nodes)' + (
+            f'; plus all histories of length <= {ddepth} up to equality of '
+            f'the reached server state ({n_dedup} nodes)' if ddepth else ''))
     ck.coverage['random_histories'] = nrand
     ck.coverage['events_by_kind'] = {
         k[3:]: v for k, v in stats.items() if k.startswith('ev:')}
@@ -1854,6 +1875,17 @@ def run(ck: Check):
             raise InfraError(
                 'the constructors create attributes the harness does not '
                 f'fill: {drift}')
+        if found and isinstance(replay.get('history'), list) \
+                and not sig.startswith('attached'):
+            try:
+                small = ddmin(list(replay['history']),
+                              lambda h: reproduces(h, sig))
+                if reproduces(small, sig):
+                    replay = dict(replay, history=small,
+                                  found_as=replay['history'])
+                    what += f'  [minimal history: {small}]'
+            except Exception:
+                pass
         ck.violation(sig, what, replay, found_input=found)
     ck.coverage['finding_signatures_seen'] = sorted(seen)
     ck.sample({'history': ['connect 0', 'submit 0 0', 'request 0 0',
